@@ -3,3 +3,4 @@ pub mod faulty;
 pub mod ks;
 pub mod res;
 pub mod stor;
+pub mod world;
